@@ -43,3 +43,70 @@ N("C07", "temporary for remaining depth", MD, "        stack: list[Node] = []\n"
   also=[])
 N("C07", "remaining depth via temp used", MD, "                self.scan_node(hit, depth_limit - 1)", "                remaining = depth_limit - 1\n                self.scan_node(hit, remaining)")
 N("C07", "keyword depth argument", MD, "self.scan_node(hit, depth_limit - 1)", "self.scan_node(hit, depth_limit=depth_limit - 1)")
+
+# ------------------------------------------------------------------ C04
+B("C04", "offset += hit.end", MD, "offset += hit.start", "offset += hit.end", "V8/context-arm/offset")
+B("C04", "offset -= node.end", MD, "offset -= node.start", "offset -= node.end", "V4/pop-rebases-offset")
+B("C04", "shift(+offset)", MD, "hit.shift(-offset)", "hit.shift(offset)", "V5/rebased-span")
+B("C04", "no shift", MD, "            hit.shift(-offset)\n", "", "V5/")
+B("C04", "shift twice", MD, "            hit.shift(-offset)\n", "            hit.shift(-offset)\n            hit.shift(-offset)\n", "V5/")
+B("C04", "shift above the pop loop", MD,
+  "            while hit.end > offset + len(node.value):\n                offset -= node.start\n                if stack:  # Todo: Log here\n                    node = stack.pop()\n            hit.shift(-offset)\n",
+  "            hit.shift(-offset)\n            while hit.end > offset + len(node.value):\n                offset -= node.start\n                if stack:  # Todo: Log here\n                    node = stack.pop()\n",
+  "V4/")
+B("C04", "context test not length preserving", MD, "if hit.value.lower() != hit.original.lower() or hit.children:", "if hit.obfuscation or hit.children:", "V8/decoded-test")
+B("C04", "Node.shift touches only start", NODE, "        self.start += offset\n        self.end += offset\n        return self", "        self.start += offset\n        return self", "V5/Node.shift-summary")
+B("C04", "push in decoded arm", MD, "                self.scan_node(hit, depth_limit - 1)\n", "                self.scan_node(hit, depth_limit - 1)\n                stack.append(node)\n", "V8/decoded-arm/no-push")
+B("C04", "pop order swapped", MD,
+  "                offset -= node.start\n                if stack:  # Todo: Log here\n                    node = stack.pop()\n",
+  "                if stack:  # Todo: Log here\n                    node = stack.pop()\n                offset -= node.start\n", "V4/pop-rebases-offset")
+B("C04", "hit.parent dropped", MD, "            hit.parent = node\n", "", "V7/parent-pairing")
+B("C04", "attached to the bottom of the stack", MD, "            node.children.append(hit)\n", "            (stack[0] if stack else node).children.append(hit)\n", "V7/attach-to-NODE")
+B("C04", "shift_nodes only start", NODE, "        node.start += offset\n        node.end += offset\n", "        node.start += offset\n", "R-shift-nodes")
+B("C04", "original ignores start", NODE, "return self.parent.value[self.start : self.end]", "return self.parent.value[: self.end]", "R-original")
+B("C04", "direct span write", MD, "            hit.parent = node\n", "            hit.parent = node\n            hit.end = hit.end + 0 * offset + 1\n", "V")
+N("C04", "offset = offset + hit.start", MD, "offset += hit.start", "offset = offset + hit.start")
+N("C04", "shift via temp", MD, "            hit.shift(-offset)\n", "            rel = -offset\n            hit.shift(rel)\n")
+N("C04", "swapped attach statements", MD, "            hit.parent = node\n            node.children.append(hit)\n", "            node.children.append(hit)\n            hit.parent = node\n")
+N("C04", "rearranged pop comparison", MD, "while hit.end > offset + len(node.value):", "while hit.end - offset > len(node.value):")
+N("C04", "hoisted len", MD, "            while hit.end > offset + len(node.value):\n                offset -= node.start\n", "            while hit.end > offset + len(node.value):\n                offset = offset - node.start\n")
+
+# ------------------------------------------------------------------ C05
+B("C05", "key (start, end)", MD, "key=lambda t: (t.start, -t.end)", "key=lambda t: (t.start, t.end)", "V2/sort-key")
+B("C05", "key (-start, -end)", MD, "key=lambda t: (t.start, -t.end)", "key=lambda t: (-t.start, -t.end)", "V2/sort-key")
+B("C05", "reverse=True", MD, "key=lambda t: (t.start, -t.end),", "key=lambda t: (t.start, -t.end), reverse=True,", "V2/no-reverse")
+B("C05", "skip <", MD, "if hit.end <= decode_end:", "if hit.end < decode_end:", "V3/")
+B("C05", "pop >=", MD, "while hit.end > offset + len(node.value):", "while hit.end >= offset + len(node.value):", "V4/pop-condition")
+B("C05", "frame slip re-introduced", MD, "decode_end = hit.end + offset", "decode_end = hit.end", "V8/decoded-arm/dend")
+B("C05", "decode_end = start", MD, "decode_end = hit.end + offset", "decode_end = hit.start + offset", "V8/decoded-arm/dend")
+B("C05", "decode_end updated in context arm", MD, "                stack.append(node)\n", "                decode_end = hit.end + offset\n                stack.append(node)\n", "V8/context-arm/dend")
+B("C05", "skip test after shift", MD,
+  "            if hit.end <= decode_end:\n                continue\n            # Return to the context that contains the current hit\n            while hit.end > offset + len(node.value):\n                offset -= node.start\n                if stack:  # Todo: Log here\n                    node = stack.pop()\n            hit.shift(-offset)\n",
+  "            # Return to the context that contains the current hit\n            while hit.end > offset + len(node.value):\n                offset -= node.start\n                if stack:  # Todo: Log here\n                    node = stack.pop()\n            hit.shift(-offset)\n            if hit.end <= decode_end:\n                continue\n",
+  "V3/")
+B("C05", "pop on start", MD, "while hit.end > offset + len(node.value):", "while hit.start > offset + len(node.value):", "V4/pop-condition")
+N("C05", "flipped skip comparison", MD, "if hit.end <= decode_end:", "if decode_end >= hit.end:")
+N("C05", "absolute end saved before the shift", MD, "", "", edits=[("            hit.shift(-offset)\n", "            abs_end = hit.end\n            hit.shift(-offset)\n"), ("decode_end = hit.end + offset", "decode_end = abs_end")])
+N("C05", "key via scaled tuple", MD, "key=lambda t: (t.start, -t.end)", "key=lambda t: (2 * t.start, -(t.end))")
+N("C05", "max with previous decode_end", MD, "decode_end = hit.end + offset", "decode_end = max(decode_end, hit.end + offset)")
+
+# ------------------------------------------------------------------ C06
+B("C06", "self-match without start == 0", MD, "if hit.start == 0 and hit.value == node.value and hit.type == node.type:", "if hit.value == node.value and hit.type == node.type:", "V6/self-match-formula")
+B("C06", "self-match without type", MD, "if hit.start == 0 and hit.value == node.value and hit.type == node.type:", "if hit.start == 0 and hit.value == node.value:", "V6/self-match-formula")
+B("C06", "self-match tested before the shift", MD,
+  "            hit.shift(-offset)\n            # Prevent analyzer rematching its own decoded output\n            if hit.start == 0 and hit.value == node.value and hit.type == node.type:\n                continue\n",
+  "            # Prevent analyzer rematching its own decoded output\n            if hit.start == 0 and hit.value == node.value and hit.type == node.type:\n                continue\n            hit.shift(-offset)\n",
+  "V6/self-match-frame")
+B("C06", "children arm also runs the decoders", MD, "                self.scan_node(child, depth_limit - 1)\n            return node\n", "                self.scan_node(child, depth_limit - 1)\n", "V8c/")
+B("C06", "extra drop of untyped hits", MD, "            hit.parent = node\n", "            if hit.type == \"\" and not hit.obfuscation:\n                continue\n            hit.parent = node\n", "V10/extra-drop")
+B("C06", "generator filters on children", MD, "for hit in search(node.value) if hit.value", "for hit in search(node.value) if hit.value and not hit.children", "V2/generator-shape")
+B("C06", "generator filter removed", MD, "for hit in search(node.value) if hit.value", "for hit in search(node.value)", "V2/generator-shape")
+B("C06", "return node", MD, "return stack[0] if stack else node", "return node", "V9/return-root")
+B("C06", "return top of stack", MD, "return stack[0] if stack else node", "return stack[-1] if stack else node", "V9/return-root")
+B("C06", "break on first decoded", MD, "                self.scan_node(hit, depth_limit - 1)\n", "                self.scan_node(hit, depth_limit - 1)\n                break\n", "V10/no-early-exit")
+B("C06", "children arm scans the node again", MD, "self.scan_node(child, depth_limit - 1)", "self.scan_node(node, depth_limit - 1)", "V8c/children-arm/descend")
+B("C06", "insert at front", MD, "node.children.append(hit)", "node.children.insert(0, hit)", "V7/attach-append")
+B("C06", "extra tie-breaker in the key", MD, "key=lambda t: (t.start, -t.end)", "key=lambda t: (t.start, -t.end, t.type)", "V2/sort-key")
+N("C06", "De Morgan on the decoded test", MD, "if hit.value.lower() != hit.original.lower() or hit.children:", "if not (hit.value.lower() == hit.original.lower() and not hit.children):")
+N("C06", "return via if statement", MD, "        return stack[0] if stack else node\n", "        if stack:\n            return stack[0]\n        return node\n")
+N("C06", "self-match operands reordered", MD, "if hit.start == 0 and hit.value == node.value and hit.type == node.type:", "if node.type == hit.type and hit.value == node.value and 0 == hit.start:")
